@@ -56,6 +56,11 @@ def simulators(EoN, G, nodes, S=("S", "I", "R"), full=False):
     sims["Gillespie_SIS_w"] = lambda: EoN.Gillespie_SIS(G, 0.8, 0.7, initial_infecteds=i0, tmax=4, transmission_weight="w", recovery_weight="rw", return_full_data=full)
     sims["fast_SIR"] = lambda: EoN.fast_SIR(G, 0.8, 0.7, initial_infecteds=i0, return_full_data=full)
     sims["fast_SIR_w"] = lambda: EoN.fast_SIR(G, 0.8, 0.7, initial_infecteds=i0, transmission_weight="w", recovery_weight="rw", return_full_data=full)
+    r0 = [nodes[1], nodes[-1]]
+    i3 = [nodes[0], nodes[len(nodes) // 2], nodes[2]]
+    sims["Gillespie_SIR_R0"] = lambda: EoN.Gillespie_SIR(G, 0.8, 0.7, initial_infecteds=i3, initial_recovereds=r0, return_full_data=full)
+    sims["fast_SIR_R0"] = lambda: EoN.fast_SIR(G, 0.8, 0.7, initial_infecteds=i3, initial_recovereds=r0, return_full_data=full)
+    sims["fast_SIR_w_R0"] = lambda: EoN.fast_SIR(G, 0.8, 0.7, initial_infecteds=i3, initial_recovereds=r0, transmission_weight="w", return_full_data=full)
     sims["fast_SIS"] = lambda: EoN.fast_SIS(G, 0.8, 0.7, initial_infecteds=i0, tmax=4, return_full_data=full)
     sims["fast_SIS_w"] = lambda: EoN.fast_SIS(G, 0.8, 0.7, rho=0.3, tmax=4, transmission_weight="w", recovery_weight="rw", return_full_data=full)
     sims["fast_nonMarkov_SIR"] = lambda: EoN.fast_nonMarkov_SIR(G, trans_time_fxn=lambda u, v: random.expovariate(0.8), rec_time_fxn=lambda u: 1.0 + random.random(), initial_infecteds=i0, return_full_data=full)
@@ -66,6 +71,15 @@ def simulators(EoN, G, nodes, S=("S", "I", "R"), full=False):
     for v in i0:
         IC[v] = I_
     sims["Gillespie_simple_contagion"] = lambda: EoN.Gillespie_simple_contagion(G, H, J, IC, (S_, I_, R_), tmax=4, return_full_data=full)
+
+    # the same model on a directed version of the graph (both orientations of every edge plus a few one-way edges)
+    DG = nx.DiGraph()
+    DG.add_nodes_from(G.nodes(data=True))
+    for k, (u, v, d) in enumerate(G.edges(data=True)):
+        DG.add_edge(u, v, **d)
+        if k % 3:
+            DG.add_edge(v, u, **d)
+    sims["Gillespie_simple_contagion_directed"] = lambda: EoN.Gillespie_simple_contagion(DG, H, J, IC, (S_, I_, R_), tmax=4, return_full_data=full)
 
     def rate_function(G_, node, status, parameters):
         if status[node] == S_:
@@ -205,6 +219,29 @@ def run_spec(spec, props=("C18",)):
         A.nontrivial.update(A.states)
         A.sample = {"spec": spec, "hash_assignments": len(perms), "simulators": names}
         return A.result(props)
+    if kind == "rejection":
+        # the weighted rejection sampler must keep drawing from `random` however many rejections occur: a fall-back
+        # to any other generator after N failed attempts would be an unseeded source.  The all-reject path is
+        # followed deterministically under the oracle (loop closure off).
+        from .core import run_once, HarnessError as _HE
+        nrej = spec["rejections"]
+        ld = sim._ListDict_(weighted=True)
+        ld.update("light", weight_increment=spec["ratio"]); ld.update("heavy", weight_increment=1.0)
+        prefix = tuple([0, 1] * nrej)
+        A.execs = 1; A.evals = 1; A.states.add(nrej); A.trans.add(nrej); A.nontrivial.add(nrej)
+        try:
+            with Poison():
+                r = run_once(sim, lambda orc: ld.choose_random(), prefix, close_loops=False, heap=False)
+            ntry = sum(1 for t in r.trace if t[0] == "choice")
+            A.outcomes.add(ntry)
+            if r.exc is not None:
+                A.add(V("C18", "_ListDict_.choose_random", "rejection", "exception", "after %d rejections choose_random raised %r" % (nrej, r.exc)))
+            elif ntry < nrej:
+                A.add(V("C18", "_ListDict_.choose_random", "rejection", "gives_up", "the rejection loop stopped asking `random` after %d attempts (%d rejections were scheduled): the result no longer comes from the seeded generators" % (ntry, nrej)))
+        except (_HE, RuntimeError) as e:
+            A.add(V("C18", "_ListDict_.choose_random", "rejection", "entropy", "after repeated rejections choose_random turned to another randomness source: %s" % e))
+        A.sample = {"spec": spec}
+        return A.result(props)
     if kind == "subprocess":
         seeds = spec["hashseeds"]
         outs = {}
@@ -239,6 +276,8 @@ def specs(tier, seed):
             out.append(dict(kind="hashorders", n=n, seed=seed + 3, gseed=2, full=full))
     if thorough:
         out.append(dict(kind="hashorders", n=5, seed=seed + 5, gseed=3, full=False))
+    for nrej in (50, 150, 400):
+        out.append(dict(kind="rejection", rejections=nrej, ratio=1e-3))
     hs = list(range(8 if not thorough else 32))
     for i in range(0, len(hs), 4):
         out.append(dict(kind="subprocess", hashseeds=[0] + [h for h in hs[i:i + 4] if h != 0], seed=seed + 1, n=10))
